@@ -1,6 +1,7 @@
 package vm
 
 import (
+	"context"
 	"fmt"
 	"sync"
 
@@ -146,6 +147,30 @@ func (p *Promise) IsResolved() bool {
 func (p *Promise) AwaitSync() (value.Value, *value.StackTrace, value.Value) {
 	p.wg.Wait()
 	return p.result, p.stackTrace, p.err
+}
+
+// Wait for the result of the promise, gives up when the context gets cancelled.
+// Returns true as the last value when the wait has been aborted.
+func (p *Promise) AwaitSyncCtx(ctx context.Context) (value.Value, *value.StackTrace, value.Value, bool) {
+	p.m.Lock()
+	resolved := p.IsResolved()
+	p.m.Unlock()
+
+	if !resolved {
+		done := make(chan struct{})
+		go func() {
+			p.wg.Wait()
+			close(done)
+		}()
+
+		select {
+		case <-done:
+		case <-ctx.Done():
+			return value.Undefined, nil, value.Undefined, true
+		}
+	}
+
+	return p.result, p.stackTrace, p.err, false
 }
 
 // Wait for the result of the promise. Panics on error.
